@@ -27,7 +27,10 @@ pub struct Scenario {
 	pub alphabet: Vec<Tx>,
 	/// keys the oracle reads, per column
 	pub universe: Arc<Vec<Vec<Vec<u8>>>>,
+	/// bound on accepted commits per history
 	pub max_commits: usize,
+	/// bound on rejected commits per history
+	pub max_rejects: usize,
 	pub max_reopen: usize,
 	pub stages: Vec<St>,
 	pub max_depth: usize,
@@ -55,6 +58,7 @@ impl Scenario {
 			alphabet,
 			universe,
 			max_commits: 2,
+			max_rejects: 1,
 			max_reopen: 1,
 			stages: ALL_STAGES.to_vec(),
 			max_depth: 64,
@@ -340,6 +344,7 @@ fn run_edge_here(scn: &Scenario, dir: &Path, hist: &[Ev], ev: Option<&Ev>) -> Ed
 
 struct Node {
 	hist: Vec<Ev>,
+	rejects: usize,
 	commits: usize,
 	reopens: usize,
 	pm_mask: u8,
@@ -405,7 +410,7 @@ pub fn graph_search(scn: &Scenario, budget: &Budget) -> (Stats, Option<Found>) {
 	let mut obs_seen: HashSet<u64> = HashSet::new();
 	let root_dir = workdir(&format!("{}-root", sanitize(&scn.name)));
 	// root
-	let mut root = Node { hist: vec![], commits: 0, reopens: 0, pm_mask: 0xff };
+	let mut root = Node { hist: vec![], rejects: 0, commits: 0, reopens: 0, pm_mask: 0xff };
 	match run_edge(scn, &root_dir, &[], None) {
 		EdgeRes::Ok(o) => {
 			seen.insert(o.identity);
@@ -485,6 +490,11 @@ pub fn graph_search(scn: &Scenario, budget: &Budget) -> (Stats, Option<Found>) {
 					for k in o.known.iter() {
 						*stats.known_hits.entry(k.clone()).or_insert(0) += 1;
 					}
+					if o.rejected && frontier[*ni].rejects >= scn.max_rejects {
+						// the rejected commit was executed and judged; its successor state is beyond the bound
+						stats.transitions += 1;
+						continue
+					}
 					if seen.insert(o.identity) {
 						stats.transitions += 1;
 						if o.multi_stage {
@@ -496,7 +506,8 @@ pub fn graph_search(scn: &Scenario, budget: &Budget) -> (Stats, Option<Found>) {
 						hist.push(ev.clone());
 						next_frontier.push(Node {
 							hist,
-							commits: p.commits + matches!(ev, Ev::Commit(_)) as usize,
+							rejects: p.rejects + o.rejected as usize,
+							commits: p.commits + (matches!(ev, Ev::Commit(_)) && !o.rejected) as usize,
 							reopens: p.reopens + matches!(ev, Ev::Reopen) as usize,
 							pm_mask: o.pm_mask,
 						});
